@@ -10,12 +10,15 @@
 (*                     1 = the two translation-unit preambles, then one     *)
 (*                     line per case with the statement probed by cppcheck  *)
 (*                     and the assertion compiled by the second witness     *)
-(*   C09_MODE = judge  re-enumerate the same cases, read the observations   *)
+(*   C09_MODE = judge  enumerate the same cases, read the observations      *)
 (*                     (IOEnv.C09_OBS: what cppcheck's dump says about the  *)
 (*                     root token of each case, whether the witness         *)
 (*                     accepted the assertion) and write the verdict of     *)
 (*                     every case that is not plainly "ok" (IOEnv.C09_OUT)  *)
-(* The expected type is computed here, from CTypes / CLit, in both modes.  *)
+(*   C09_MODE = run    gen, then the probe driver (IOEnv.C09_DRIVER, runs    *)
+(*                     cppcheck and the witness on the rendered files and   *)
+(*                     writes the observations), then judge - in one run    *)
+(* The expected type is computed here, from CTypes / CLit, in every mode.  *)
 (***************************************************************************)
 EXTENDS CLit, TLC, Json, IOUtils, SequencesExt
 
@@ -145,11 +148,8 @@ Key(x) ==
   CASE x.kind = "op" -> x.c.op \o ":" \o TypeId(x.c.a) \o ":" \o (IF x.c.b = None THEN "-" ELSE TypeId(x.c.b))
     [] OTHER -> x.kind \o ":" \o Expr(x)
 
-\* statement given to cppcheck: the expression is the operand of a cast to void starting in column 1
-CcLine(x) == "(void)(" \o Expr(x) \o ");"
-\* assertion given to the second witness (TYPE_IS is defined in the preamble)
-WLine(x) == LET t == Expected(x).t
-            IN  IF NotJudged(t) THEN "" ELSE "TYPE_IS((" \o Expr(x) \o "), " \o Spelling(t, Lang) \o ");"
+\* cc: statement given to cppcheck: the expression is the operand of a cast to void starting in column 1
+\* w: assertion given to the second witness (TYPE_IS is defined in the preamble); empty if nothing is asserted
 
 Decls ==
   LET ts == SetToSeq(Operands)
@@ -171,8 +171,11 @@ Header == [preamble_cc |-> Decls \o <<"void f(void) {">>,
            platform |-> PlatName, lang |-> Lang, triple |-> P.triple, ncases |-> Len(CaseSeq)]
 
 CaseLine(i) == LET x == CaseSeq[i]
-               IN  [id |-> i, key |-> Key(x), expr |-> Expr(x), tok |-> Tok(x), cc |-> CcLine(x), w |-> WLine(x),
-                    rule |-> Expected(x).rule]
+                   e == Expr(x)
+                   t == Expected(x)
+               IN  [id |-> i, key |-> Key(x), expr |-> e, tok |-> Tok(x), cc |-> "(void)(" \o e \o ");",
+                    w |-> IF NotJudged(t.t) THEN "" ELSE "TYPE_IS((" \o e \o "), " \o Spelling(t.t, Lang) \o ");",
+                    rule |-> t.rule]
 
 Gen == ndJsonSerialize(IOEnv.C09_CASES, <<Header>> \o [i \in 1..Len(CaseSeq) |-> CaseLine(i)])
 
@@ -181,43 +184,47 @@ Gen == ndJsonSerialize(IOEnv.C09_CASES, <<Header>> \o [i \in 1..Len(CaseSeq) |->
 (* clang] with has = the dump has a root token with a valueType; clang in    *)
 (* "ok" (assertion accepted), "fail", "skip" (nothing asserted).             *)
 
-Obs == ndJsonDeserialize(IOEnv.C09_OBS)
-
 Describe(t) == IF NotJudged(t) THEN "(open)" ELSE Spelling(t, Lang)
 
-Verdict(x, o) ==
-  LET e == Expected(x)
-  IN  IF o.expr # Expr(x) THEN "desync"
-      ELSE IF ~o.has THEN "untyped"
-      ELSE IF o.tok # Tok(x) THEN "unmapped"
-      ELSE IF NotJudged(e.t) THEN "open"
-      ELSE IF Agrees([type |-> o.type, sign |-> o.sign, pointer |-> o.pointer], e.t, Lang, P) THEN "ok"
-      ELSE IF o.clang # "ok" THEN "model_disagreement"
-      ELSE "violation"
-
-Row(i) == LET x == CaseSeq[i]
-              o == Obs[i]
-              v == Verdict(x, o)
-          IN  [id |-> i, key |-> Key(x), expr |-> Expr(x), verdict |-> v, rule |-> Expected(x).rule,
-               expected |-> Describe(Expected(x).t), clang |-> o.clang,
-               got |-> IF o.has THEN o.type \o "/" \o o.sign \o "/" \o ToString(o.pointer) ELSE "-"]
+Row(i, o) ==
+  LET x == CaseSeq[i]
+      e == Expected(x)
+      v == IF o.expr # Expr(x) THEN "desync"
+           ELSE IF ~o.has THEN "untyped"
+           ELSE IF o.tok # Tok(x) THEN "unmapped"
+           ELSE IF NotJudged(e.t) THEN "open"
+           ELSE IF Agrees([type |-> o.type, sign |-> o.sign, pointer |-> o.pointer], e.t, Lang, P) THEN "ok"
+           ELSE IF o.clang # "ok" THEN "model_disagreement"
+           ELSE "violation"
+  IN  IF v = "ok" /\ o.clang # "fail" THEN [verdict |-> "ok", plain |-> TRUE]
+      ELSE [id |-> i, key |-> Key(x), expr |-> Expr(x), verdict |-> v, rule |-> e.rule, plain |-> FALSE,
+            expected |-> Describe(e.t), clang |-> o.clang,
+            got |-> IF o.has THEN o.type \o "/" \o o.sign \o "/" \o ToString(o.pointer) ELSE "-"]
 
 Judge ==
-  /\ Assert(Len(Obs) = Len(CaseSeq), <<"observations do not match the case list", Len(Obs), Len(CaseSeq)>>)
-  /\ LET rows == [i \in 1..Len(CaseSeq) |-> Row(i)]
-         notable == SelectSeq(rows, LAMBDA r : r.verdict # "ok" \/ r.clang = "fail")
-         count(v) == Cardinality({i \in 1..Len(rows) : rows[i].verdict = v})
+  LET obs == ndJsonDeserialize(IOEnv.C09_OBS)
+  IN
+  /\ Assert(Len(obs) = Len(CaseSeq), <<"observations do not match the case list", Len(obs), Len(CaseSeq)>>)
+  /\ LET \* SelectSeq evaluates every row exactly once; rows that are plainly ok are dropped
+         notable == SelectSeq([i \in 1..Len(CaseSeq) |-> Row(i, obs[i])], LAMBDA r : ~r.plain)
+         count(v) == Cardinality({i \in 1..Len(notable) : notable[i].verdict = v})
+         nonok == Cardinality({i \in 1..Len(notable) : notable[i].verdict # "ok"})
      IN  /\ ndJsonSerialize(IOEnv.C09_OUT, notable)
-         /\ PrintT(<<"C09VERDICT", "cases", Len(rows), "ok", count("ok"), "violation", count("violation"),
-                     "model_disagreement", Cardinality({i \in 1..Len(rows) : rows[i].clang = "fail"}),
+         /\ PrintT(<<"C09VERDICT", "cases", Len(CaseSeq), "ok", Len(CaseSeq) - nonok, "violation", count("violation"),
+                     "model_disagreement", Cardinality({i \in 1..Len(notable) : notable[i].clang = "fail"}),
                      "untyped", count("untyped"), "unmapped", count("unmapped"), "open", count("open"),
                      "desync", count("desync")>>)
 
-ASSUME IF IOEnv.C09_MODE = "gen" THEN Gen ELSE Judge
+Probe == LET r == IOExec(<<"python3", IOEnv.C09_DRIVER, IOEnv.C09_WORK>>)
+         IN  Assert(r.exitValue = 0, <<"probe driver failed", r.exitValue, r.stderr>>)
+
+ASSUME CASE IOEnv.C09_MODE = "gen" -> Gen
+         [] IOEnv.C09_MODE = "judge" -> Judge
+         [] IOEnv.C09_MODE = "run" -> Gen /\ Probe /\ Judge
 
 --------------------------------------------------------------------------
 (* Laws of the type rules themselves (guards against a wrong specification) *)
-Ints == {b \in OperandBases : IsInt(Ty(b))} \ {"enum"}
+Ints == IF IOEnv.C09_MODE # "judge" THEN {b \in OperandBases : IsInt(Ty(b))} \ {"enum"} ELSE {}
 ASSUME \A a, b \in Ints : Usual(a, b, Lang, P) = Usual(b, a, Lang, P)
 ASSUME \A a \in Ints : LET p == Promote(a, Lang, P)
                        IN  /\ Promote(p, Lang, P) = p /\ Rank(p) >= 3 /\ CanRepresent(p, a, P)
